@@ -19,7 +19,11 @@ def base_classes(dtor):
               [Method("val", [], P("int"), [Ret(Bin("+", Fld(Var("inner"), "v"), Var("w")))])],
               [Ctor([Param(C("Pt"), "p"), Param(P("int"), "extra")], [Expr(FAsg(This(), "inner", Var("p"))), Expr(FAsg(This(), "w", Var("extra")))])],
               [Echo(S("~Wrap"))] if dtor else [])
-    return [p, n, w]
+    # an object the sweep exempts (it owns a tracked qubit) that is the only path to a plain object
+    r = Class("Reg", "", [dict(Field(P("qubit"), "q"), tracked=True), Field(C("Pt"), "inner")],
+              [Method("val", [], P("int"), [Ret(Fld(Var("inner"), "v"))])],
+              [Ctor([Param(C("Pt"), "p")], [Expr(FAsg(This(), "inner", Var("p")))])], [])
+    return [p, n, w, r]
 
 
 FUNCS = [
@@ -32,6 +36,9 @@ FUNCS = [
     Func("use", [Param(C("Pt"), "a"), Param(P("int"), "k")], P("int"), [Ret(Bin("+", Fld(Var("a"), "v"), Var("k")))]),
     Func("use2", [Param(P("int"), "k"), Param(C("Pt"), "a")], P("int"), [Ret(Bin("+", Fld(Var("a"), "v"), Var("k")))]),
     Func("mk", [Param(P("int"), "x")], C("Pt"), [Decl(P("int"), "pad", Call("churn", I(3))), Ret(New("Pt", Var("x")))]),
+    Func("useReg", [Param(C("Reg"), "r"), Param(P("int"), "k")], P("int"), [Ret(Bin("+", MCall(Var("r"), "val"), Var("k")))]),
+    # 'destroy' requests a collection, which runs at the next statement boundary - inside the caller's argument list
+    Func("pick", [Param(P("int"), "k")], P("int"), [Decl(C("Pt"), "s", New("Pt", Var("k"))), Destroy("s"), Ret(Var("k"))]),
     Func("cycle", [Param(P("int"), "base")], P("int"),
          [Decl(C("Node"), "a", New("Node", Var("base"))), Decl(C("Node"), "b", New("Node", Bin("+", Var("base"), I(1)))),
           Expr(FAsg(Var("a"), "next", Var("b"))), Expr(FAsg(Var("b"), "next", Var("a"))),
@@ -52,6 +59,10 @@ def shapes(rnd):
         lambda: Echo(Call("cycle", n())),                                                      # cyclic garbage, no destructors
         lambda: Echo(Call("churn", n())),
         lambda: Echo(Call("use", Call("mk", I(7)), Call("churn", n()))),
+        lambda: Echo(Call("useReg", New("Reg", New("Pt", I(8))), Call("churn", n()))),            # exempt owner of a plain object, pending
+        lambda: Echo(Call("useReg", New("Reg", New("Pt", I(9))), Call("pick", I(2)))),              # collection requested by destroy
+        lambda: Echo(Call("use", New("Pt", I(10)), Call("pick", I(3)))),
+        lambda: Echo(MCall(New("Reg", Call("mk", Call("pick", I(4)))), "val")),
     ]
 
 
